@@ -2,6 +2,7 @@ package main
 
 import (
 	"go/token"
+	"strings"
 
 	"golang.org/x/tools/go/ssa"
 )
@@ -484,7 +485,7 @@ func init() {
 		Rules: []func(*Ctx){func(c *Ctx) { ruleC02a(c, "C02.a") }, func(c *Ctx) { ruleC02b(c, "C02.b") }, func(c *Ctx) { ruleC02c(c, "C02.c") }, func(c *Ctx) {
 			c.describe("C02.k", "dom: a WAL entry (one offset) becomes exactly one row store insert — (*table).doInsert calls rowStore.insert once, outside any loop, so that the offset and all values of the point are applied in one lock region (see C01.a) and no flush can persist the offset with part of the point")
 			ruleOneInsertPerPoint(c, "C02.k")
-		}, func(c *Ctx) {
+		}, func(c *Ctx) { ruleC02l(c, "C02.l") }, func(c *Ctx) { ruleC02m(c, "C02.m") }, func(c *Ctx) {
 			c.describe("C02.d", "flow: header offsets belong to the flushed rows (see C03.d)")
 			ruleC03d(c, "C02.d")
 		}, func(c *Ctx) { ruleC02e(c, "C02.e") }, func(c *Ctx) { ruleC02f(c, "C02.f") }, func(c *Ctx) { ruleLockRegions(c, "C02.g") }, func(c *Ctx) {
@@ -492,4 +493,77 @@ func init() {
 			ruleSkipOnReject(c, "C02.h")
 		}, func(c *Ctx) { ruleC02i(c, "C02.i") }, func(c *Ctx) { ruleC12a(c, "C02.j") }},
 	})
+}
+
+// ruleC02l: the key under which a standalone table records its WAL position is
+// the key it resumes from.
+func ruleC02l(c *Ctx, rule string) {
+	c.describe(rule, "reg: writer/reader agreement of the standalone source key — the WAL read loop tags every entry with a constant source (walRead{…, source}) and CreateTable resumes the WAL reader from offsetsBySource[that same constant]; any other key finds no offset and the whole WAL is applied again on every restart")
+	pw := c.need(rule, "(*z.table).processWALInserts")
+	ct := c.need(rule, "(*z.DB).CreateTable")
+	if pw == nil || ct == nil {
+		return
+	}
+	tag, okT := int64(-1), false
+	for _, f := range withHelpers(c.P, pw) {
+		for _, st := range fieldStores(f, "z.walRead.source") {
+			if k, isK := constInt(st.Val); isK {
+				tag, okT = k, true
+			} else {
+				okT = false
+			}
+		}
+	}
+	var key ssa.Value
+	n := 0
+	for _, f := range withHelpers(c.P, ct) {
+		for _, call := range callsTo(f, "(*z.table).startWALProcessing") {
+			n++
+			a := call.Common().Args
+			v := strip(a[len(a)-1])
+			if lk, ok := v.(*ssa.Lookup); ok && typeStr(lk.X.Type()) == "z/common.OffsetsBySource" {
+				key = lk.Index
+			}
+		}
+	}
+	if !okT || n != 1 {
+		c.undecided(rule, "standalone resume key = standalone source tag", ct.Pos(), "expected a constant source tag in processWALInserts and one startWALProcessing call in CreateTable (found tag ok="+boolStr(okT)+", calls="+itoa(n)+")")
+		return
+	}
+	k, isK := int64(0), false
+	if key != nil {
+		k, isK = constInt(key)
+	}
+	c.check(rule, "standalone resume key = standalone source tag", ct.Pos(), isK && k == tag, "both are the constant "+itoa(int(tag)), "CreateTable resumes the WAL reader from offsetsBySource[k] with k different from (or not provably equal to) the constant source the WAL read loop tags entries with: no offset is found, the reader restarts at the oldest segment and every restart applies the whole WAL on top of the persisted rows")
+}
+
+func boolStr(b bool) string {
+	if b {
+		return "true"
+	}
+	return "false"
+}
+
+// ruleC02m: only the database-wide retention task shortens a WAL.
+func ruleC02m(c *Ctx, rule string) {
+	c.describe(rule, "reg (who-may-call): the shared per-stream WAL is truncated or compressed only by the database-wide task (*DB).capWALAge — a table that truncates the WAL up to its own persisted offset removes entries a sibling table on the same stream still holds only in memory")
+	allowed := map[string]string{"(*z.DB).capWALAge": "database-wide size cap"}
+	n := 0
+	for _, fn := range c.P.ModFns {
+		if strings.HasPrefix(pkgOf(fn), "z/cmd") {
+			continue
+		}
+		for _, call := range calls(fn) {
+			cn := calleeName(call)
+			if !strings.HasPrefix(cn, "(*github.com/getlantern/wal.WAL).Truncate") && !strings.HasPrefix(cn, "(*github.com/getlantern/wal.WAL).Compress") {
+				continue
+			}
+			n++
+			top := stableName(topOf(fn))
+			_, ok := allowed[top]
+			c.touch(fn)
+			c.check(rule, top+" calls "+strings.TrimPrefix(cn, "(*github.com/getlantern/wal.WAL)."), call.Pos(), ok, "reviewed caller", "the WAL of a stream is shortened outside the database-wide retention task: entries that another table on the stream has acknowledged but not yet flushed are gone after the next kill")
+		}
+	}
+	c.floor(rule, "WAL truncation/compression calls", n, 1)
 }
